@@ -4,7 +4,7 @@ use crate::util::*;
 use minicbor::{data::Type, decode, encode, Decode, Decoder, Encode, Encoder};
 
 #[derive(Debug, Clone, PartialEq)]
-pub enum V { U(u64), B(Vec<u8>), X(Vec<u8>) }
+pub enum V { U(u64), B(Vec<u8>), X(Vec<u8>), E }
 
 thread_local! {
     /// calls of `V::encode` / `V::decode` since the last reset: a frame writer encodes a value once per `write`, a reader decodes a
@@ -22,6 +22,7 @@ impl<C> Encode<C> for V {
         match self {
             V::U(n) => e.u64(*n)?.ok(),
             V::B(b) => e.bytes(b)?.ok(),
+            V::E => Ok(()),                       // writes nothing and succeeds: its frame is the four zero bytes of an empty payload
             V::X(p) => {
                 e.writer_mut().write_all(p).map_err(encode::Error::write)?;
                 Err(encode::Error::message("this value does not encode"))
@@ -47,6 +48,7 @@ pub fn parse_val(s: &str) -> Option<V> {
         "u" => r.parse().ok().map(V::U),
         "b" => unhex(r).map(V::B),
         "x" => unhex(r).map(V::X),
+        "e" if r.is_empty() => Some(V::E),
         _ => None
     }
 }
@@ -59,7 +61,8 @@ pub fn show_val(v: &V) -> String {
     match v {
         V::U(n) => format!("u{}", n),
         V::B(b) => format!("b{}", hex(b)),
-        V::X(p) => format!("x{}", hex(p))
+        V::X(p) => format!("x{}", hex(p)),
+        V::E => "e".into()
     }
 }
 
